@@ -38,7 +38,7 @@ func (o lruOp) String() string {
 	return fmt.Sprintf("%s(k%d)", strings.ToUpper(o.Op[:1])+o.Op[1:], o.K)
 }
 
-var c14Routes [8]*rux.Route
+var c14Routes [16]*rux.Route
 var c14RouteID = map[*rux.Route]int{}
 
 func init() {
